@@ -353,7 +353,7 @@ func (fg *FuncGen) call(v *ssa.Call, c *ssa.CallCommon, instr ssa.Instruction) {
 	if con != nil {
 		for _, a := range con.Assigns {
 			name := strings.TrimPrefix(a, "*")
-			if i := strings.Index(name, "."); i > 0 {
+			if i := strings.IndexAny(name, ".@"); i > 0 {
 				name = name[:i]
 			}
 			if t, ok := bind[name]; ok {
